@@ -41,17 +41,17 @@ func dslValidationFiles(f string) bool {
 }
 
 func init() {
-	reg("C05", ruleEmittedCasesDoNotFallThrough, ruleParallelSlicesStayAligned, ruleIntegerNarrowingChecked, ruleInverseInvolution, ruleWrapperRecursion, ruleChangeKindsConsumed, ruleEndStream, ruleComparersConsultTheirData, rulePreviousSchemasPositional, ruleOldTypesOnTheOldWire)
+	reg("C05", ruleTemporaryBatchHasCapacity, ruleEmittedCasesDoNotFallThrough, ruleParallelSlicesStayAligned, ruleIntegerNarrowingChecked, ruleInverseInvolution, ruleWrapperRecursion, ruleChangeKindsConsumed, ruleEndStream, ruleComparersConsultTheirData, rulePreviousSchemasPositional, ruleOldTypesOnTheOldWire)
 	reg("C06", ruleDefaultGoesToTestedVariable, ruleParallelSlicesStayAligned, ruleParseCachePerPackage, ruleOptionalDeref(evolutionFiles, "NP1", 3), ruleWrapperRecursion, ruleChangeKindsConsumed, ruleChangeDataUsed, ruleComparersConsultTheirData, ruleE3(evoScope, "E3"), ruleE2(evoScope, "E2"), ruleE5(evoScope, "E5"), ruleMapOrderScoped, rulePrunesPartial(evolutionFiles, "V5", 3))
 	reg("C04", ruleDefinitionsKeyedByIdentity, ruleNoTestOfUnsetField, ruleNoRunTimeGlobals, ruleOneSchemaFunction, ruleMarshalCoverage, ruleSchemaCanonical, rulePrunes(schemaFiles, "V5", 2), ruleRewriterDescends(schemaFiles, "V8", 2), ruleStateMachineSchemaCheck)
 	reg("C01", ruleEmittedCasesDoNotFallThrough, ruleUnionIndexSkipsNull, rulePlan, ruleRecordOrder, ruleDirectionDuality, ruleCppPrimitiveFamilies, ruleStepFraming, ruleEmptyBatchGuard, ruleEndStream, ruleTrivialRecordTrait, ruleCppEnumUnderlyingType)
 	reg("C16", ruleBatchReadReportsCounter, ruleEndStream, ruleStepFraming)
-	reg("C17", ruleEmittedReadersOverwrite, ruleBatchReadReportsCounter, ruleEmptyBatchGuard, ruleStepFraming, ruleFallbackBatchTruncates)
+	reg("C17", ruleTemporaryBatchHasCapacity, ruleEmittedReadersOverwrite, ruleBatchReadReportsCounter, ruleEmptyBatchGuard, ruleStepFraming, ruleFallbackBatchTruncates)
 	reg("C15", ruleDefinitionsKeyedByIdentity, ruleNoTestOfUnsetField, ruleStateMachineSchemaCheck, ruleMarshalCoverage, ruleSchemaCanonical, rulePrunes(schemaFiles, "V5", 2), ruleRewriterDescends(schemaFiles, "V8", 2), rulePreviousSchemasPositional)
 	reg("C03", ruleEnumDefaultBaseIsInt32, ruleUnionIndexSkipsNull, ruleEmittedSymbols, rulePlan, ruleJsonKinds, ruleTrivialRecordTrait, ruleJsonNamesAreModelNames, ruleCppEnumUnderlyingType)
 	reg("C08", ruleEmittedLambdasCapture, ruleContextNamespaceThreaded, ruleEmptyDimensionListRejected, ruleNoContradictoryShapeTests, ruleGeneralizeUnderlying, ruleOptionalDeref(backendFiles, "NP1", 20), ruleDocstringQuotePadding, ruleEmittedSymbols, ruleSwitchDefaults(backendFiles, "P4", 25), ruleReservedTables, ruleIdentifierHelpers, ruleDependenciesFirst, ruleOptionGating, ruleUniquenessVsMangling)
 	reg("C19", ruleFoldKeepsResult, ruleArithmeticOnNumbersOnly, ruleGeneralizeUnderlying, ruleTypingSymmetric, ruleCommonTypeMap, ruleEmitterSiblings, ruleParenthesisation, ruleOperatorTokens, rulePromotionNotBypassed, ruleConversionAlwaysExplicit, ruleMatlabConversionClass, ruleSizeFunctionTokens)
-	reg("C13", ruleShorthandArrayWithoutDimensions, ruleDecodeLoopLeavesOnError, rulePlan, ruleAliasTable, ruleFilesAreCombined, ruleSpellingErased, ruleShorthandTwins, ruleDocCommentSuffix, ruleTypeTags, ruleDimensionItemSpellings, ruleSchemaCanonical, rulePrunes(topoSortFiles, "V5", 2))
+	reg("C13", ruleModelDirectoryReadRecursively, ruleShorthandArrayWithoutDimensions, ruleDecodeLoopLeavesOnError, rulePlan, ruleAliasTable, ruleFilesAreCombined, ruleSpellingErased, ruleShorthandTwins, ruleDocCommentSuffix, ruleTypeTags, ruleDimensionItemSpellings, ruleSchemaCanonical, rulePrunes(topoSortFiles, "V5", 2))
 	reg("C07", ruleExitClosesThroughStateCheck, ruleStateMachine, ruleNoReturnBeforeStateGuard)
 	reg("C02", ruleEmittedReadersOverwrite, ruleJsonKinds, ruleUnionTagDecision, ruleKindTests, ruleOptionalFieldSymmetry, ruleJsonNamesAreModelNames)
 	reg("C14", ruleEnumDefaultBaseIsInt32, ruleUnionIndexSkipsNull, ruleNoContradictoryShapeTests, rulePlan, ruleUnionTagDecision, ruleRecordOrder, ruleOptionalFieldSymmetry, ruleTrivialRecordTrait, ruleMatlabExtentOrderAgrees)
